@@ -35,6 +35,76 @@ theorem C13_parse_rejects_reversed (a : Int) (b : Nat) (closed : Bool) (h : (b :
     parseIntervalTop (showInt a ++ '-' :: showNat b ++ (if closed then [']'] else [])) = .err :=
   parse_rejects_reversed a b closed h
 
+/-- `l` answers `ps` element by element -/
+inductive Each {α β : Type} (R : α → β → Prop) : List α → List β → Prop
+  | nil : Each R [] []
+  | cons {a b as bs} : R a b → Each R as bs → Each R (a :: as) (b :: bs)
+
+/-- an accepted list text is accepted token by token: every interval of the result is what the
+    single-interval parser makes of the corresponding token (so none is reversed) -/
+theorem parseParts_tokenwise (ps : List (List Char)) (l : List Ival) (h : parseParts false ps = .ok l) :
+    Each (fun p i => parseIntervalTop p = .ok i) ps l := by
+  induction ps generalizing l with
+  | nil => simp [parseParts] at h; subst h; exact Each.nil
+  | cons p ps ih =>
+    unfold parseParts at h
+    cases hp : parseIntervalTop p with
+    | ok i =>
+      simp only [hp] at h
+      cases hq : parseParts false ps with
+      | ok l' =>
+        simp only [hq, Bool.false_eq_true, if_false] at h
+        simp at h; subst h
+        exact Each.cons hp (ih l' hq)
+      | err => simp [hq] at h
+      | panic => simp [hq] at h
+    | err => simp [hp] at h
+    | panic => simp [hp] at h
+
+theorem C13_accepted_list_is_tokenwise (s : List Char) (l : List Ival) (h : parseIntervalList s = .ok l) :
+    Each (fun p i => parseIntervalTop p = .ok i) (splitOn ' ' s) l ∧ ∀ i ∈ l, i.start ≤ i.stop := by
+  have hf := parseParts_tokenwise _ l h
+  refine ⟨hf, ?_⟩
+  intro i hi
+  have : ∀ (ps : List (List Char)) (l : List Ival), Each (fun p i => parseIntervalTop p = .ok i) ps l →
+      ∀ i ∈ l, i.start ≤ i.stop := by
+    intro ps l hfa
+    induction hfa with
+    | nil => intro i hi; simp at hi
+    | cons hpi _ ih =>
+      intro j hj
+      rcases List.mem_cons.mp hj with rfl | hj
+      · unfold parseIntervalTop at hpi
+        split at hpi
+        · split at hpi
+          · simp at hpi
+          · simp at hpi; subst hpi; omega
+        · rename_i hne; simp_all
+      · exact ih j hj
+  exact this _ l hf i hi
+
+/-- a reversed (or otherwise rejected) token anywhere in a list text makes the whole text rejected -/
+theorem C13_list_rejects_bad_token (s : List Char) (p : List Char) (hp : p ∈ splitOn ' ' s)
+    (hbad : parseIntervalTop p = .err) : ∀ l, parseIntervalList s ≠ .ok l := by
+  intro l h
+  have hf := parseParts_tokenwise _ l h
+  have : ∀ (ps : List (List Char)) (l : List Ival), Each (fun p i => parseIntervalTop p = .ok i) ps l →
+      ∀ p ∈ ps, ∃ i, parseIntervalTop p = .ok i := by
+    intro ps l hfa
+    induction hfa with
+    | nil => intro p hp; simp at hp
+    | cons hpi _ ih =>
+      intro q hq
+      rcases List.mem_cons.mp hq with rfl | hq
+      · exact ⟨_, hpi⟩
+      · exact ih q hq
+  obtain ⟨i, hi⟩ := this _ l hf p hp
+  rw [hbad] at hi
+  cases hi
+
+example : parseIntervalList "1-2 5-3 7".toList = .err := by decide
+
+
 example : showIval ⟨-5, -3, true⟩ = "-(5-3])".toList := by decide
 example : parseIntervalTop "-(5-3])".toList = .ok ⟨-5, -3, true⟩ := by decide
 example : showIvalList [⟨-5, -3, true⟩, ⟨-2, 4, false⟩, ⟨0, 0, true⟩] = "-(5-3]) -2-4 0".toList := by decide
